@@ -79,6 +79,15 @@ pub fn check_coordinates() -> Vec<Failure> {
             bad("C19:index-out-of-range", format!("File/Rank::index({}) did not panic", i));
         }
     }
+    // indices far beyond the range, including ones whose low 8/16/32 bits name a variant
+    for i in [256usize + 3, 65536 + 5, (1usize << 31) + 7, (1usize << 32), (1usize << 32) + 27, (1usize << 32) + 3, (1usize << 40) + 1, usize::MAX, usize::MAX - 7, usize::MAX / 2 + 1] {
+        if Square::try_index(i).is_some() || File::try_index(i).is_some() || Rank::try_index(i).is_some() || Piece::try_index(i).is_some() || Color::try_index(i).is_some() {
+            bad("C19:try_index-out-of-range", format!("try_index({}) is Some", i));
+        }
+        if catch_unwind(|| Square::index(i)).is_ok() || catch_unwind(|| File::index(i)).is_ok() || catch_unwind(|| Rank::index_const(i)).is_ok() || catch_unwind(|| Piece::index(i)).is_ok() {
+            bad("C19:index-out-of-range", format!("index({}) did not panic", i));
+        }
+    }
     for i in 64..300usize {
         if Square::try_index(i).is_some() || catch_unwind(|| Square::index(i)).is_ok() {
             bad("C19:square-index-out-of-range", format!("Square::try_index/index({})", i));
